@@ -192,6 +192,7 @@ def check(chk):
                 chk.ob("DOM-19", "the scan of Light.%s stops at the key (entries *below* the key must not hide the change)" % name, left,
                        g.where(b.ast), detail="without the break an opaque entry below the key suppresses the refresh: the hardware keeps the removed colour",
                        construct=g.ident, text="scan does not stop at key in " + name)
+            scan_exits_only_at_key(chk, "DOM-19", g, gcfg, h, name)
             falses = [n for n in gcfg.nodes_where(lambda n: n.kind == "stmt" and isinstance(n.ast, ast.Assign) and
                                                   src(n.ast.targets[0]) in ("color_change", "color_changes") and src(n.ast.value) == "False")
                       if any(x is n.ast for st in h.ast.body for x in ast.walk(st))]
@@ -333,9 +334,22 @@ def check(chk):
     chk.ob("BATCH-1", "marking dirty queues the light and drops its pending fade steps", ok, md.where(), construct=md.ident, text="mark_dirty")
 
 
+def scan_exits_only_at_key(chk, rule, g, gcfg, h, name):
+    """Every early exit (break / return) of a stack scan is taken at the key, so the entry with that key is always found."""
+    for n in gcfg.nodes_where(lambda n: n.kind == "stmt" and isinstance(n.ast, (ast.Break, ast.Return))):
+        if not any(x is n.ast for st in h.ast.body for x in ast.walk(st)):
+            continue
+        gd = gcfg.guards_at(n.id)
+        ok = any(k.replace(" ", "") == "entry.key==key" and v is True for k, v in gd.items())
+        chk.ob(rule, "the stack scan of Light.%s is left early only at the key (the entry is always found)" % name, ok, g.where(n.ast),
+               detail="leaving at an opaque entry above the key means the key's entry is never found: it stays on the stack for ever",
+               construct=g.ident, text="scan exit before key in " + name)
+
+
 def battery():
     from sa.battery import M
     return [
+        M("fade-out scan gives up at opaque entry", LT, "                # found entry above the removed which is non-transparent\n                color_change = False\n", "                # found entry above the removed which is non-transparent\n                color_change = False\n                break\n", "DOM-19"),
         M("append without sort", LT, "        if len(self.stack) > 1:\n            self.stack.sort(reverse=True)\n\n        if self._debug:\n            self.debug_log(\"+-------------- Adding to stack", "        if self._debug:\n            self.debug_log(\"+-------------- Adding to stack", "SORT-3"),
         M("stack ascending", LT, "            self.stack.sort(reverse=True)\n\n        if self._debug:", "            self.stack.sort()\n\n        if self._debug:", "SORT-3"),
         M("entry order ignores key", LT, "return self.priority > other.priority or (self.priority == other.priority and self.key > other.key)", "return self.priority > other.priority", "SORT-3"),
